@@ -411,3 +411,10 @@ func deviceTTL() {
 		}
 	})
 }
+
+// Bodies re-run by C11 under the race-instrumented build.
+var RaceBodies = map[string]func(){
+	"c09-reqrep-device-chain-1": func() { reqrepChain(1) },
+	"c09-survey-device-chain":   surveyChain,
+	"c09-pair1-device-chain":    pair1Chain,
+}
